@@ -667,7 +667,7 @@ func runOnce(t *testing.T, id int, c map[string]any, cacheSz int, v variant, bas
 	var lastLogStart int
 	var e *env
 	var baseLog []rec.Entry
-	dfailRetried, noEpilogue := false, false
+	dfailRetried, noEpilogue, extraEv := false, false, 0
 	defer func() {
 		rr = runResult{events: events, drift: drift, fatal: fatal, lastLogStart: lastLogStart, baseLog: baseLog, cf: cf}
 	}()
@@ -711,6 +711,25 @@ func runOnce(t *testing.T, id int, c map[string]any, cacheSz int, v variant, bas
 				events = append(events, ev)
 				if ev.Res == "panic" {
 					break
+				}
+				if ev.Res != "ok" && mbt.Str(op, "kind") == "head" && (id+v.dfail)%2 == 0 {
+					// instead of retrying, the caller goes on appending right above whatever Head() reports now: the chain
+					// must stay one gap-free run (also across the restart of the epilogue)
+					if hd, herr := e.st.Head(context.Background()); herr == nil {
+						h0 := int(hd.Height())
+						if h0+2 > e.cfg.n {
+							e.cfg.n = h0 + 2
+						}
+						ap := map[string]any{"op": "append", "b": []any{float64(h0 + 1), float64(h0 + 2)}}
+						ev2 := e.doOp(ap, id+i+1, v, false, false)
+						ev2.Tr, ev2.I, ev2.Cfg = id, i+1, cfgName(cf)+","+v.name+",append-after-fault"
+						events = append(events, ev2)
+						sy := e.doOp(map[string]any{"op": "sync"}, id+i+2, v, false, false)
+						sy.Tr, sy.I, sy.Cfg = id, i+2, cfgName(cf)+","+v.name+",append-after-fault"
+						events = append(events, sy)
+						dfailRetried, extraEv = true, 1
+					}
+					continue
 				}
 				if ev.Res != "ok" {
 					retry := map[string]any{"op": "delete", "from": float64(-1), "to": float64(ev.To), "failAt": float64(0)}
@@ -768,7 +787,7 @@ func runOnce(t *testing.T, id int, c map[string]any, cacheSz int, v variant, bas
 		if !panicked && v.failOp < 0 && !noEpilogue && os.Getenv("VH_NOEPILOGUE") == "" {
 			n := len(hist)
 			if dfailRetried {
-				n++
+				n += 1 + extraEv
 			}
 			for _, name := range []string{"stop", "start"} {
 				if name == "stop" && !e.up {
